@@ -1249,3 +1249,6 @@ def run(repo, chk, tier):
     from .c20_thin import check_thinning
 
     check_thinning(repo, chk)
+    from .c20_thin import check_accept_bound
+
+    check_accept_bound(repo, chk)
